@@ -10,9 +10,11 @@ package rest
 //@   let sent  := n_do == old(n_do) + 1
 //@   let asked := n_glc == old(n_glc) + 1
 //@   requires d != nil && d.witness != nil && d.witSigV != nil && d.client != nil && l.Verifier != nil
+//@   // (the client built by NewDistributor: one that does not follow redirects)
+//@   requires d.client.CheckRedirect != nil
 //@   requires counterDistRestAttempt != nil && counterDistRestSuccess != nil && counterDistRestAttempt != counterDistRestSuccess
 //@   modifies n_ro, ro_err, n_gl, gl_err, gl_val, gl_h, n_glc, glc_id, glc_out, glc_err, cnt
-//@   modifies req_method, req_url, req_body, rdr_bytes, n_do, do_method, do_url, do_body, do_err, do_status, do_final_method, do_resp_body, rd_buf, req_ctx, do_ctx, n_noctx
+//@   modifies req_method, req_url, req_body, rdr_bytes, n_do, do_method, do_url, do_body, do_err, do_status, do_final_method, do_resp_body, rd_buf, req_ctx, do_ctx, n_noctx, n_bodies_open
 //@   ghostmodifies n_dfl, n_dfl_fail
 //@   ensures[ghost] n_dfl == old(n_dfl) + 1 && n_dfl_fail == old(n_dfl_fail) + (err != nil ? 1 : 0)
 //@   // the witness is asked once, for this log's ID; at most one request goes out
@@ -25,6 +27,9 @@ package rest
 //@   // the PUT carries the caller's context
 //@   ensures[C19.ctx,C15.ctx] ctx != noCtx() ==> n_noctx == old(n_noctx)
 //@   ensures[C19.ctx,C15.ctx] sent ==> do_ctx == ctx
+//@   // the response body is closed on every path (an open body keeps its connection checked out: with a capped transport the
+//@   // next log's request would wait for it)
+//@   ensures[C15.leak] n_bodies_open == old(n_bodies_open)
 //@   // every failing step is reported
 //@   ensures[C15.4] glc_err != nil ==> err != nil && !sent
 //@   ensures[C15.4] sent && do_err != nil ==> err != nil
@@ -34,11 +39,11 @@ package rest
 
 //@ func (*Distributor).DistributeOnce
 //@   returns (err)
-//@   requires d != nil && d.witness != nil && d.witSigV != nil && d.client != nil
+//@   requires d != nil && d.witness != nil && d.witSigV != nil && d.client != nil && d.client.CheckRedirect != nil
 //@   requires counterDistRestAttempt != nil && counterDistRestSuccess != nil && counterDistRestAttempt != counterDistRestSuccess
 //@   requires forall j int :: 0 <= j && j < len(d.logs) ==> d.logs[j].Verifier != nil
 //@   modifies n_ro, ro_err, n_gl, gl_err, gl_val, gl_h, n_glc, glc_id, glc_out, glc_err, cnt
-//@   modifies req_method, req_url, req_body, rdr_bytes, n_do, do_method, do_url, do_body, do_err, do_status, do_final_method, do_resp_body, rd_buf, req_ctx, do_ctx, n_noctx, n_dfl, n_dfl_fail
+//@   modifies req_method, req_url, req_body, rdr_bytes, n_do, do_method, do_url, do_body, do_err, do_status, do_final_method, do_resp_body, rd_buf, req_ctx, do_ctx, n_noctx, n_bodies_open, n_dfl, n_dfl_fail
 //@   // every configured log is attempted (a failure does not stop the others), and the result reports whether any failed
 //@   ensures[C15.6] n_dfl == old(n_dfl) + len(d.logs)
 //@   ensures[C15.6] (err != nil) == (n_dfl_fail != old(n_dfl_fail))
@@ -49,5 +54,17 @@ package rest
 // The distributor works on exactly the configuration it was constructed with.
 //@ func NewDistributor
 //@   returns (d, err)
+//@   requires client != nil
 //@   modifies heap
-//@   ensures[C15.new,C12.new] err == nil && d != nil && d.baseURL == baseURL && d.client == client && d.logs == logs && d.witSigV == witSigV && d.witness == wit
+//@   ensures[C15.new,C12.new] err == nil && d != nil && d.baseURL == baseURL && d.logs == logs && d.witSigV == witSigV && d.witness == wit
+//@   // its HTTP client is the caller's (same transport, same timeout) except that it does not follow redirects: a redirect is not
+//@   // the distributor's answer, and following a 307/308 would replay the PUT at whatever location the answer names
+//@   ensures[C15.redir,C15.new] d.client != nil && d.client != client
+//@   ensures[C15.redir,C15.new] d.client.Transport == client.Transport
+//@   ensures[C15.redir,C15.new] d.client.Timeout == client.Timeout
+//@   ensures[C15.redir,C15.new] d.client.CheckRedirect != nil
+
+// the redirect policy installed by NewDistributor: never follow
+//@ func NewDistributor$1
+//@   returns (r)
+//@   ensures[C15.redir] r == http.ErrUseLastResponse
